@@ -102,9 +102,12 @@ pub fn replay(path: &str) -> i32 {
     let space = v["space"].as_str().unwrap();
     let id = v["case_id"].as_u64().unwrap();
     let def = find(prop).expect("unknown property");
-    for tier in ["quick", "thorough"] {
+    // the tier the case was found in comes first: spaces of the two tiers can share a name but not a decoding
+    let recorded = v["tier"].as_str().unwrap_or("quick").to_string();
+    let other = if recorded == "thorough" { "quick" } else { "thorough" };
+    for tier in [recorded.as_str(), other] {
         for s in (def.spaces)(tier, 0) {
-            if s.name() == space {
+            if s.name() == space && (v["case"].is_null() || s.describe(id) == v["case"] || tier == other) {
                 println!("replaying {} / {} / case {}: {}", prop, space, id, s.describe(id));
                 if std::env::var("VERIF_DEBUG").is_ok() {
                     println!("{}", s.debug(id));
